@@ -949,8 +949,8 @@ fn shape_notes(t: &Ty, v: &Val, d: &Decls, out: &mut BTreeMap<String, u64>) {
     let mut bump = |k: String| *out.entry(k).or_default() += 1;
     match (t, v) {
         (Ty::VecDeque(_), Val::Deque { bulk, content, .. }) => bump(format!("vecdeque:{}", if bulk.is_some() { "capacity>10000" } else if content.is_empty() { "empty" } else { "scripted" })),
-        (Ty::HashMap(..), Val::Map { content, del, bulk, .. }) => bump(format!("hashmap:n={}{}", content.len(), if !del.is_empty() || bulk.as_ref().map(|b| b.del_step > 0).unwrap_or(false) { "+removals" } else { "" })),
-        (Ty::HashSet(..), Val::Set { content, del, bulk, .. }) => bump(format!("hashset:n={}{}", content.len(), if !del.is_empty() || bulk.as_ref().map(|b| b.del_step > 0).unwrap_or(false) { "+removals" } else { "" })),
+        (Ty::HashMap(..), Val::Map { content, del, bulk, .. }) => bump(format!("hashmap:n={}{}{}", content.len(), if !del.is_empty() || bulk.as_ref().map(|b| b.del_step > 0).unwrap_or(false) { "+removals" } else { "" }, match bulk { Some(b) if b.reserve > 0 => "+reserved-sparse", Some(b) if b.keep_mod > 0 => "+drained", _ => "" })),
+        (Ty::HashSet(..), Val::Set { content, del, bulk, .. }) => bump(format!("hashset:n={}{}{}", content.len(), if !del.is_empty() || bulk.as_ref().map(|b| b.del_step > 0).unwrap_or(false) { "+removals" } else { "" }, match bulk { Some(b) if b.reserve > 0 => "+reserved-sparse", Some(b) if b.keep_mod > 0 => "+drained", _ => "" })),
         (Ty::BTreeMap(..), Val::Map { content, .. }) => bump(format!("btreemap:{}", match content.len() { 0 => "empty", 1..=11 => "1 leaf", 12..=71 => "<=2 levels", _ => ">=2-3 levels" })),
         (Ty::BTreeSet(..), Val::Set { content, .. }) => bump(format!("btreeset:{}", match content.len() { 0 => "empty", 1..=11 => "1 leaf", 12..=71 => "<=2 levels", _ => ">=2-3 levels" })),
         (Ty::CEnum(i), _) => bump(format!("c-enum:variants={}", match d.cenums[*i].variants.len() { 0..=128 => "<=128", 129..=200 => "129-200", _ => ">200" })),
